@@ -467,11 +467,21 @@ pub struct RCase {
     /// settling dispositions the scripted sender sends afterwards: (first k, last k)
     pub settles: Vec<(usize, usize)>,
     pub first_id: u32,
+    /// the rcv-settle-mode each transfer names itself: 0 none (the link's applies), 1 first, 2 second
+    pub modes: Vec<u8>,
 }
 
 impl RCase {
+    /// is delivery `k` under rcv-settle-mode second?
+    pub fn second(&self, k: usize) -> bool {
+        match self.modes.get(k).copied().unwrap_or(0) {
+            1 => false,
+            2 => true,
+            _ => self.rcv_second,
+        }
+    }
     pub fn to_json(&self) -> J {
-        json!({"rcv_second": self.rcv_second, "n": self.n, "disposals": self.disposals.iter().map(|(v, c)| json!([v, c])).collect::<Vec<_>>(), "settles": self.settles.iter().map(|(a, b)| json!([a, b])).collect::<Vec<_>>(), "first_id": self.first_id})
+        json!({"rcv_second": self.rcv_second, "n": self.n, "disposals": self.disposals.iter().map(|(v, c)| json!([v, c])).collect::<Vec<_>>(), "settles": self.settles.iter().map(|(a, b)| json!([a, b])).collect::<Vec<_>>(), "first_id": self.first_id, "modes": self.modes})
     }
     pub fn from_json(j: &J) -> Option<RCase> {
         Some(RCase {
@@ -480,6 +490,7 @@ impl RCase {
             disposals: j.get("disposals")?.as_array()?.iter().filter_map(|x| Some((x.get(0)?.as_array()?.iter().filter_map(|y| y.as_u64().map(|v| v as usize)).collect(), x.get(1)?.as_u64()? as u8))).collect(),
             settles: j.get("settles")?.as_array()?.iter().filter_map(|x| Some((x.get(0)?.as_u64()? as usize, x.get(1)?.as_u64()? as usize))).collect(),
             first_id: j.get("first_id")?.as_u64()? as u32,
+            modes: j.get("modes").and_then(|x| x.as_array()).map(|a| a.iter().filter_map(|y| y.as_u64().map(|v| v as u8)).collect()).unwrap_or_default(),
         })
     }
 }
@@ -567,7 +578,12 @@ pub fn run_receiver(case: &RCase) -> RObserved {
             }
         }
         for k in 0..case.n {
-            let t = transfer(3, Some(case.first_id.wrapping_add(k as u32)), Some(vec![k as u8]), Some(false), false);
+            let mut t = transfer(3, Some(case.first_id.wrapping_add(k as u32)), Some(vec![k as u8]), Some(false), false);
+            t.rcv_settle_mode = match case.modes.get(k).copied().unwrap_or(0) {
+                1 => Some(ReceiverSettleMode::First),
+                2 => Some(ReceiverSettleMode::Second),
+                _ => None,
+            };
             tr!(peer.send(0, Performative::Transfer(t), &message_bytes(k as u64, 5)).await);
         }
         // collect the client's dispositions until the disposal phase is over
@@ -654,16 +670,16 @@ pub fn check_receiver(case: &RCase, obs: &RObserved) -> Option<(String, String)>
         if cnt as usize >= case.n {
             return Some(("disposition-range-too-wide".into(), format!("{}..{}", first, last)));
         }
-        if *settled == case.rcv_second {
-            return Some(("settled-flag-contradicts-mode".into(), format!("disposition {}..{} settled={} in rcv-settle-mode {}", first, last, settled, if case.rcv_second { "second" } else { "first" })));
-        }
         for i in 0..=cnt {
             let k = first.wrapping_add(i).wrapping_sub(case.first_id) as usize;
             if k >= case.n {
                 return Some(("disposition-for-unknown-id".into(), format!("{}..{}", first, last)));
             }
             reported[k] += 1;
-            if !case.rcv_second && outcome[k] != Some(*st) {
+            if *settled == case.second(k) {
+                return Some(("settled-flag-contradicts-mode".into(), format!("disposition {}..{} settled={} names delivery {} which is under rcv-settle-mode {} (link: {}, transfer: {})", first, last, settled, k, if case.second(k) { "second" } else { "first" }, if case.rcv_second { "second" } else { "first" }, ["none", "first", "second"][case.modes.get(k).copied().unwrap_or(0) as usize])));
+            }
+            if !case.second(k) && outcome[k] != Some(*st) {
                 return Some(("wrong-state-reported".into(), format!("delivery {} reported as {}, application said {:?}", k, code_name(*st), outcome[k].map(code_name))));
             }
         }
@@ -675,7 +691,7 @@ pub fn check_receiver(case: &RCase, obs: &RObserved) -> Option<(String, String)>
         if outcome[k].is_none() && reported[k] > 0 {
             return Some(("undisposed-delivery-reported".into(), format!("delivery {}", k)));
         }
-        if !case.rcv_second && reported[k] > 1 {
+        if !case.second(k) && reported[k] > 1 {
             return Some(("settled-twice".into(), format!("delivery {} named by {} settled dispositions", k, reported[k])));
         }
     }
@@ -683,7 +699,7 @@ pub fn check_receiver(case: &RCase, obs: &RObserved) -> Option<(String, String)>
     let has = |v: &Vec<Vec<u8>>, k: usize| v.iter().any(|t| t.as_slice() == [k as u8]);
     for k in 0..case.n {
         let disposed = outcome[k].is_some();
-        let want_mid = if case.rcv_second { true } else { !disposed };
+        let want_mid = if case.second(k) { true } else { !disposed };
         if has(&obs.unsettled_after_disposal, k) != want_mid {
             return Some((
                 if want_mid { "forgotten-before-sender-settled".into() } else { "retained-after-settling".into() },
@@ -691,7 +707,7 @@ pub fn check_receiver(case: &RCase, obs: &RObserved) -> Option<(String, String)>
             ));
         }
         let settled_by_sender = case.settles.iter().any(|(a, b)| *a <= k && k <= *b);
-        if !case.rcv_second && settled_by_sender {
+        if !case.second(k) && settled_by_sender {
             // a sender settling on its own a delivery the mode-first receiver has not disposed yet:
             // the property says nothing about it (the session does not track mode-first deliveries)
             continue;
@@ -731,7 +747,10 @@ pub fn gen_rcase(rng: &mut Rng) -> RCase {
         let b = a + rng.below((n - a) as u64) as usize;
         settles.push((a, b));
     }
-    RCase { rcv_second: rng.chance(2, 3), n, disposals, settles, first_id: *rng.pick(&[0u32, 7, u32::MAX, u32::MAX - 3]) }
+    let rcv_second = rng.chance(2, 3);
+    // a transfer may name its own mode: `first` on any link, `second` only where the link is `second`
+    let modes: Vec<u8> = if rng.chance(1, 2) { vec![0; n] } else { (0..n).map(|_| if rcv_second { rng.below(3) as u8 } else { rng.below(2) as u8 }).collect() };
+    RCase { rcv_second, n, disposals, settles, first_id: *rng.pick(&[0u32, 7, u32::MAX, u32::MAX - 3]), modes }
 }
 
 pub fn main(opts: &Opts) {
@@ -909,6 +928,9 @@ pub fn main(opts: &Opts) {
         report.evaluations += 1;
         report.nontrivial_case(fnv(&case.to_json().to_string()));
         report.count(if case.rcv_second { "receiver_cases_mode_second" } else { "receiver_cases_mode_first" });
+        if case.modes.iter().any(|m| *m != 0) {
+            report.count("receiver_cases_with_per_transfer_modes");
+        }
         if k % (nr / 2).max(1) == 0 {
             report.sample(case.to_json());
         }
@@ -918,7 +940,7 @@ pub fn main(opts: &Opts) {
             let start = rlines.len();
             rlines.push(format!("Y reset {}", if case.rcv_second { 2 } else { 1 }));
             for k in 0..case.n {
-                rlines.push(format!("Y arrive {} {} 0", k, case.first_id.wrapping_add(k as u32)));
+                rlines.push(format!("Y arrive {} {} 0 {}", k, case.first_id.wrapping_add(k as u32), case.modes.get(k).copied().unwrap_or(0)));
             }
             let mut n_disp = 0;
             for (idx, code) in &case.disposals {
